@@ -337,7 +337,7 @@ impl Scenario for RealSockSim {
                 let log = Arc::new(Mutex::new(HandlerLog::default()));
                 let mut plans = BTreeMap::new();
                 for id in 1u32..=20 {
-                    plans.insert(id, HandlerPlan { delay_ms: 0, resp_len: 500, resp_chunk: 100, resp_delay_ms: 0, fail: false, upgrade: false, redirect: None });
+                    plans.insert(id, HandlerPlan { delay_ms: 0, resp_len: 500, resp_chunk: 100, resp_delay_ms: 0, fail: false, upgrade: false, redirect: None, resp_trailers: false });
                 }
                 let ctx = HandlerCtx { net: net.clone(), log: log.clone(), plans: Arc::new(plans), origin: "http://srv.test".into() };
                 let tls_cfg = if case.tls { Some(tlsfix::server_config(tlsfix::CertKind::Good, &[])) } else { None };
